@@ -28,7 +28,7 @@ func init() {
 			{ID: "C05-R2", Title: "no nondeterministic source in the interpreter core", Floor: 8, Run: c05r2},
 			{ID: "C05-R3", Title: "global names sorted before symbol insertion", Floor: 1, Run: c05r3},
 			{ID: "C05-R4", Title: "the front end keeps no package-level state written after initialisation", Floor: 3, Run: c05r4},
-			{ID: "C05-R5", Title: "comparison functions are lexicographic where they compare two keys", Floor: 1, Run: brokenLexicographicLess},
+			{ID: "C05-R5", Title: "comparison functions are lexicographic where they compare two keys", Floor: 1, Run: lexicographicBoth},
 			{ID: "C05-R6", Title: "script values are not rendered with fmt's default formatting", Floor: 1, Run: sprintOfObjects},
 		},
 	})
@@ -1166,6 +1166,16 @@ func (k *c05) compilerSortsNames(fn *types.Func) bool {
 	return false
 }
 
+// c05OnlyPkg restricts c05r1's reports to one package (set by c05r1Scoped).
+var c05OnlyPkg string
+
+// c05r1Scoped runs the map-order classifier and reports only the loops of one package.
+func c05r1Scoped(c *core.Ctx, rel string) {
+	c05OnlyPkg = rel
+	defer func() { c05OnlyPkg = "" }()
+	c05r1(c)
+}
+
 func c05r1(c *core.Ctx) {
 	p := c.P
 	k := &c05{c: c, p: p, pu: newPurity(p), sources: map[*types.Func]string{}}
@@ -1196,7 +1206,14 @@ func c05r1(c *core.Ctx) {
 		if len(v.reasons) > 0 {
 			msg += ": " + strings.Join(dedup(v.reasons), "; ")
 		}
+		if c05OnlyPkg != "" && core.RelPkg(pk.Types) != c05OnlyPkg {
+			return
+		}
 		if why, ok := c05Exceptions[key]; ok && !v.ok {
+			if strings.Contains(why, "re-keying") && strings.Contains(strings.Join(v.reasons, ";"), "append") {
+				c.Fail(key, posOf(p, rs), "the loop is excepted because it only re-keys one map into another, but it now appends to a slice in map order: "+strings.Join(dedup(v.reasons), "; "))
+				return
+			}
 			if strings.Contains(why, "arg-max") && !strictArgMax(info, rs) {
 				c.Fail(key, posOf(p, rs), "the loop is excepted as a strict arg-max selection, but no assignment of the selected candidate is guarded by a comparison between the candidate's measure and the measure of the candidate selected so far: the last matching entry in map order wins")
 				return
@@ -1241,6 +1258,9 @@ func c05r1(c *core.Ctx) {
 			for _, pk := range p.Pkgs {
 				info := pk.TypesInfo
 				funcBodies(pk, func(fn *types.Func, fd *ast.FuncDecl) {
+					if c05OnlyPkg != "" && core.RelPkg(pk.Types) != c05OnlyPkg {
+						return
+					}
 					idx := 0
 					walkStack(fd.Body, func(n ast.Node, stack []ast.Node) bool {
 						ce, ok := n.(*ast.CallExpr)
